@@ -49,9 +49,19 @@ func (c Cfg) Scalar() *rapid.Generator[*ref.V] {
 		case 2, 3:
 			return ref.Num(rapid.SampledFrom(c.Nums).Draw(t, "n"))
 		default:
+			if OneIn(t, 80, "longstr") {
+				return ref.Str(rapid.SampledFrom(LongStrs).Draw(t, "ls"))
+			}
 			return ref.Str(rapid.SampledFrom(c.Strs).Draw(t, "s"))
 		}
 	})
+}
+
+// LongStrs: strings around and beyond the sizes at which buffers are first
+// grown or refilled (the decoder's 512-byte stream buffer, scratch buffers).
+var LongStrs = []string{
+	strings.Repeat("ab", 300), strings.Repeat("x", 511), strings.Repeat("x", 512), strings.Repeat("x", 513),
+	strings.Repeat("é", 300), strings.Repeat("line\n<tag>&\"q\"\\", 120), strings.Repeat("\u2028 ", 200), strings.Repeat("😀", 1100),
 }
 
 // Value generates any JSON value of nesting at most depth.
@@ -76,6 +86,14 @@ func (c Cfg) Array(depth int) *rapid.Generator[*ref.V] {
 	return rapid.Custom(func(t *rapid.T) *ref.V {
 		n := Uniform(t, 0, c.Width, "alen")
 		a := ref.Arr()
+		if depth > 0 && OneIn(t, 40, "longarr") {
+			// a long array of scalars: two-digit indices, growth of the element slice
+			n = Uniform(t, 11, 40, "alenlong")
+			for i := 0; i < n; i++ {
+				a.Arr = append(a.Arr, c.Scalar().Draw(t, "le"))
+			}
+			return a
+		}
 		for i := 0; i < n; i++ {
 			a.Arr = append(a.Arr, c.Value(depth-1).Draw(t, "e"))
 		}
@@ -87,6 +105,14 @@ func (c Cfg) Object(depth int) *rapid.Generator[*ref.V] {
 	return rapid.Custom(func(t *rapid.T) *ref.V {
 		n := Uniform(t, 0, c.Width, "olen")
 		o := ref.Obj()
+		if depth > 0 && OneIn(t, 60, "wideobj") {
+			// an object with many members (more than any pool of names gives)
+			n = Uniform(t, 12, 36, "olenwide")
+			for i := 0; i < n; i++ {
+				o.Set(fmt.Sprintf("m%d", (i*7)%n), c.Scalar().Draw(t, "wv"))
+			}
+			return o
+		}
 		for i := 0; i < n; i++ {
 			k := rapid.SampledFrom(c.Keys).Draw(t, "k")
 			if _, ok := o.Get(k); ok {
@@ -101,10 +127,23 @@ func (c Cfg) Object(depth int) *rapid.Generator[*ref.V] {
 // Root generates an object- or array-rooted document.
 func (c Cfg) Root() *rapid.Generator[*ref.V] {
 	return rapid.Custom(func(t *rapid.T) *ref.V {
+		var v *ref.V
 		if OneIn(t, 4, "rootk") {
-			return c.Array(c.Depth).Draw(t, "ra")
+			v = c.Array(c.Depth).Draw(t, "ra")
+		} else {
+			v = c.Object(c.Depth).Draw(t, "ro")
 		}
-		return c.Object(c.Depth).Draw(t, "ro")
+		if OneIn(t, 120, "deeproot") {
+			// the same document below 12-40 levels of single-member containers
+			for i, n := 0, Uniform(t, 12, 40, "deepn"); i < n; i++ {
+				if (i+n)%3 == 0 {
+					v = ref.Arr(v)
+				} else {
+					v = ref.ObjOf("a", v)
+				}
+			}
+		}
+		return v
 	})
 }
 
